@@ -488,3 +488,88 @@ def isometrize_methods(mk, method, shape):
     Q = decomp.isometrize(A, method=method)
     mk.same("shape preserved", tuple(Q.shape), tuple(shape))
     mk.eq(f"isometrize({method}): Q^dag Q == 1", ref.matmul(ref.dag(Q), Q), ref.eye(shape[1], like=Q))
+
+
+# ---------------------------------------------------------------------- truncating drivers against an independent reference
+
+def _ref_truncate(s, cutoff, mode, max_bond, renorm):
+    """independent implementation of the documented truncation rule on a descending array of magnitudes"""
+    n = len(s)
+    if cutoff > 0.0:
+        if mode == "abs":
+            k = int(np.sum(s > cutoff))
+        elif mode == "rel":
+            k = int(np.sum(s > cutoff * s[0]))
+        else:
+            pw = 2 if mode.endswith("2") else 1
+            sp = s ** pw
+            tot = sp.sum()
+            target = cutoff * tot if mode.startswith("r") else cutoff
+            k = n
+            for j in range(n):          # least k whose discarded weight is <= target
+                if sp[j:].sum() <= target:
+                    k = j
+                    break
+        k = max(k, 1)
+    else:
+        k = n
+    if max_bond is not None and max_bond > 0:
+        k = min(k, max_bond)
+    kept = s[:k].copy()
+    if renorm and k < n:
+        kept = kept * (np.sum(s ** renorm) / np.sum(kept ** renorm)) ** (1.0 / renorm)
+    return k, kept
+
+
+_TRUNC = [{"method": m, "kind": kd} for m in ("svd", "svd:eig", "eigh") for kd in ("real", "cplx")]
+
+
+@obligation(PROP, params=_TRUNC, numeric=True, num_trials=2)
+def truncated_split_numeric(mk, method, kind):
+    """[numeric-only supplement] the accelerated truncating drivers as reached through array_split, over the grid
+    cutoff in {0.0, 0.07, 0.4} x cutoff_mode x max_bond x renorm x (with / without an info dict): kept count, kept values
+    (by magnitude, renormalised with the requested power) and reconstruction equal an independent numpy implementation of
+    the documented rule; eigh on an INDEFINITE Hermitian matrix (values ordered by magnitude).  The rule itself is
+    decided symbolically by `truncation_rule`; this cross-run covers the per-method shortcuts around it."""
+    mk.encodes(decomp.array_split, decomp.svd_truncated_numba if hasattr(decomp, "svd_truncated_numba") else decomp.array_split,
+               decomp._svd_via_eig_truncated_numba, decomp.eigh_truncated_numba)
+    if mk.sym:
+        mk.same("numeric-only obligation", True, True)
+        return
+    rng = np.random.default_rng(17 + len(method) + (kind == "cplx"))
+    cpl = (lambda sh: rng.normal(size=sh) + 1j * rng.normal(size=sh)) if kind == "cplx" else (lambda sh: rng.normal(size=sh))
+    if method == "eigh":
+        Q, _ = np.linalg.qr(cpl((5, 5)))
+        lam = np.array([-5.0, 3.0, 1.0, -0.2, 0.05])
+        x = (Q * lam[None, :]) @ Q.conj().T
+        order = np.argsort(-np.abs(lam))
+        mags = np.abs(lam)[order]
+    else:
+        Ux, _ = np.linalg.qr(cpl((6, 5)))
+        Vx, _ = np.linalg.qr(cpl((5, 5)))
+        mags = np.array([4.0, 2.0, 1.0, 0.3, 0.05])
+        x = (Ux * mags[None, :]) @ Vx.conj().T
+    for cutoff in (0.0, 0.07, 0.4):      # (no value, partial sum or ratio of the test spectra ties with a cutoff)
+        for mode in (("rsum2",) if cutoff == 0.0 else ("abs", "rel", "sum2", "rsum2", "sum1", "rsum1")):
+            for mb in (None, 2, 3):
+                for rn in (0, 1, 2):
+                    for with_info in ((False,) if method == "eigh" else (False, True)):      # (the eigh driver takes no info dict)
+                        k, kept = _ref_truncate(mags, cutoff, mode, mb, rn)
+                        kw = dict(method=method, cutoff=cutoff, cutoff_mode=mode, max_bond=mb, renorm=rn, absorb=None)
+                        info = {} if with_info else None
+                        if with_info:
+                            kw["info"] = info
+                        U, s, VH = decomp.array_split(x.copy(), **kw)
+                        tag = f"[numeric-only] {method} cutoff={cutoff} mode={mode} max_bond={mb} renorm={rn} info={with_info}"
+                        mk.same(f"{tag}: kept count", len(s), k)
+                        if len(s) == k:
+                            # (the order in which the kept values are returned is not part of the claim)
+                            mk.eq(f"{tag}: kept values (magnitudes, renormalised)", np.sort(np.abs(np.asarray(s)))[::-1], kept, tol=1e-9)
+                            # reconstruction == best rank-k part, rescaled like the values
+                            if method == "eigh":
+                                want = (Q[:, order[:k]] * (lam[order[:k]] * (kept / mags[:k]))[None, :]) @ Q[:, order[:k]].conj().T
+                            else:
+                                want = (Ux[:, :k] * kept[None, :]) @ Vx[:, :k].conj().T
+                            mk.eq(f"{tag}: U diag(s) VH", (np.asarray(U) * np.asarray(s)[None, :]) @ np.asarray(VH), want, tol=1e-8)
+                        if with_info and k < len(mags):
+                            mk.eq(f"{tag}: info['error'] == norm of what was discarded", info.get("error"), float(np.sqrt(np.sum(mags[k:] ** 2))), tol=1e-8)
